@@ -119,7 +119,7 @@ func genC06Alloc(r *plan.Rng) *plan.Plan {
 		names = append(names, "calibrated"+itoa(k))
 	} else {
 		emit(r.Range(0, 6), "")
-		switch r.Intn(5) {
+		switch r.Intn(7) {
 		case 0: // loop
 			body = append(body, "for i := 0; i < "+itoa(r.Range(1, 12))+"; i++ {")
 			emit(r.Range(1, 4), "\t")
@@ -137,6 +137,24 @@ func genC06Alloc(r *plan.Rng) *plan.Plan {
 				body = append(body, "fn("+itoa(i)+")")
 			}
 			names = append(names, "func")
+		case 3: // self tail call: the frame is reused, the budget must not be
+			body = append(body, "tc := func(i, acc) {", "	if i == 0 {", "		return acc", "	}")
+			save := body
+			body = nil
+			emit(r.Range(1, 2), "\t")
+			inner := body
+			body = append(save, inner...)
+			body = append(body, "	return tc(i - 1, acc + [i])", "}", "tcr := tc("+itoa(r.Range(1, 9))+", [])")
+			names = append(names, "tailcall")
+		case 4: // spread and variadic calls
+			body = append(body, "vf := func(a, ...rest) {")
+			save := body
+			body = nil
+			emit(r.Range(1, 3), "\t")
+			inner := body
+			body = append(save, inner...)
+			body = append(body, "	return len(rest) + a", "}", "vr1 := vf(1, 2, 3)", "vr2 := vf([1, 2, 3, 4]...)", "vr3 := vf(1)")
+			names = append(names, "variadic")
 		case 2: // source module
 			id++
 			p.Modules = append(p.Modules, plan.Module{Name: "lad", Src: lines("t1 := [1, 2]", "t2 := {a: t1}", "t3 := t1[0:1]", "f := func(x) { return [x] }", "export {f: f, t: t3}")})
@@ -201,6 +219,7 @@ func genC06Strlen(r *plan.Rng) *plan.Plan {
 		{"g23 := \"\"", "for i := 0; i < R * 2 + 1; i++ {", "	g23 += char(55296 + i)", "}"},
 		{"g24 := str[0:R % 6]", "for i := 0; i < R + 2; i++ {", "	g24 += 'é'", "	g24 = g24 + char(1114112 + i)", "	g24 += char(-1 - i)", "}"},
 		{"g25 := \"abcdef\" + \"gh\"[0:R % 3]", "g25b := g25 + char(56000)", "g25c := g25 + 'z'", "g25d := g25 + '€'", "g25e := char(57343) + g25"},
+		{"g26 := \"0123456789abcdefghij\"", "g26b := {abcdefghijklmnopqrstuvwxyz: 1}", "g26c := `raw 0123456789abcdefghijklmnopqrstuvwxyz0123456789abcdefghijklmnopqrstuvwxyz`"},
 		{"g14 := string(n * 1000000) + string(fl) + string(true) + string(undefined)", "g14b := format(\"%t|%c|%U\", true, chr, chr)"},
 	}
 	n := r.Range(1, 3)
